@@ -674,7 +674,12 @@ impl<'a> GeneratorState<'a> {
                 self.function_is_actually_in_use(i.0, &mut functions_actually_in_use);
             }
         }
-        debug!("Functions actually in use: {:?}", functions_actually_in_use);
+        // Logged in name order, not in hash order
+        debug!("Functions actually in use: {:?}", {
+            let mut names: Vec<&String> = functions_actually_in_use.iter().collect();
+            names.sort();
+            names
+        });
         self.functions_actually_in_use = functions_actually_in_use;
         Ok(())
     }
